@@ -7,7 +7,14 @@ $VERIF_REPO/minidump-common/src/format.rs: what C02's model needs beyond layouts
     produced by layouts.py's own strict struct parser (same rules, same failure modes);
   * VS_FFI_SIGNATURE / VS_FFI_STRUCVERSION;
   * the PlatformId discriminants `Os::from_platform_id` maps to an operating system;
-  * the MINIDUMP_STREAM_TYPE discriminants of the streams C02 covers.
+  * the MINIDUMP_STREAM_TYPE discriminants of the streams C02 covers;
+  * the five MINIDUMP_MISC_INFO* layouts. They are declared through the `multi_structs!` macro (each
+    struct = the fields of all previous ones + its own; the macro adds the derive), which layouts.py
+    does not read: the macro body is parsed here (strictly), nested types (TIME_ZONE_INFORMATION,
+    SYSTEMTIME, XSTATE_CONFIG_FEATURE_MSC_INFO, XSTATE_FEATURE) come from layouts.py's parser;
+  * the `MiscInfoFlags` bits, and the accessor table of `RawMiscInfo` (the `misc_accessors!(..)`
+    invocation in minidump/src/minidump.rs: field, version it appeared in, guarding flag);
+  * the wire size of MINIDUMP_HANDLE_DATA_STREAM (the handle-data header).
 
 Strict: anything unexpected is an error (exit 1).
 """
@@ -21,10 +28,17 @@ sys.path.insert(0, HERE)
 import layouts  # noqa: E402
 
 OUT = os.path.join(HERE, "..", "lean", "MdModel", "Gen", "LayoutsC02.lean")
-STRUCTS = ["MINIDUMP_SYSTEM_INFO", "CPU_INFORMATION"]
+STRUCTS = ["MINIDUMP_SYSTEM_INFO", "CPU_INFORMATION", "TIME_ZONE_INFORMATION", "SYSTEMTIME",
+           "XSTATE_CONFIG_FEATURE_MSC_INFO", "XSTATE_FEATURE", "MINIDUMP_HANDLE_DATA_STREAM"]
+MISC_STRUCTS = ["MINIDUMP_MISC_INFO", "MINIDUMP_MISC_INFO_2", "MINIDUMP_MISC_INFO_3", "MINIDUMP_MISC_INFO_4",
+                "MINIDUMP_MISC_INFO_5"]
+MISC_FLAGS = ["MINIDUMP_MISC1_PROCESS_ID", "MINIDUMP_MISC1_PROCESS_TIMES", "MINIDUMP_MISC1_PROCESSOR_POWER_INFO",
+              "MINIDUMP_MISC3_PROCESS_INTEGRITY", "MINIDUMP_MISC3_PROCESS_EXECUTE_FLAGS", "MINIDUMP_MISC3_TIMEZONE",
+              "MINIDUMP_MISC3_PROTECTED_PROCESS", "MINIDUMP_MISC4_BUILDSTRING", "MINIDUMP_MISC5_PROCESS_COOKIE"]
 PLATFORMS = ["VER_PLATFORM_WIN32_WINDOWS", "VER_PLATFORM_WIN32_NT", "MacOs", "Ios", "Linux", "Solaris", "Android", "Ps3", "NaCl"]
 STREAMS = ["ThreadListStream", "ModuleListStream", "MemoryListStream", "ExceptionStream", "SystemInfoStream",
-           "Memory64ListStream", "UnloadedModuleListStream", "MemoryInfoListStream", "ThreadNamesStream"]
+           "Memory64ListStream", "UnloadedModuleListStream", "MemoryInfoListStream", "ThreadNamesStream",
+           "MiscInfoStream", "HandleDataStream", "LinuxMaps", "CrashpadInfoStream"]
 
 
 def die(msg):
@@ -48,6 +62,71 @@ def enum_values(code, name):
     return vals
 
 
+def parse_layout(gen, name):
+    """read one `def NAME : Layout := [("f", w), ...]` back from layouts.py's output"""
+    m = re.search(rf"^def {name} : Layout := \[(.*)\]$", gen, flags=re.M)
+    if not m:
+        die(f"layouts.py did not emit {name}")
+    items = re.findall(r'\("([^"]+)", (\d+)\)', m.group(1))
+    if not items:
+        die(f"layout {name} is empty")
+    return [(n, int(w)) for (n, w) in items]
+
+
+def misc_layouts(code, gen):
+    """the structs declared through `multi_structs!`: cumulative field lists, flattened"""
+    mac = re.search(r"macro_rules! multi_structs \{(.*?)\n\}\n", code, flags=re.S)
+    if not mac:
+        die("macro multi_structs not found")
+    dm = re.search(r"#\[derive\(([^)]*)\)\]\s*pub struct \$name", mac.group(1))
+    derives = [d.strip() for d in dm.group(1).split(",")] if dm else []
+    if "Pread" not in derives or "SizeWith" not in derives:
+        die(f"multi_structs! no longer derives Pread + SizeWith (derives: {derives})")
+    if "@next { $($prev:tt)* }" not in mac.group(1) or "{ $($prev)* $($cur)* }" not in mac.group(1):
+        die("multi_structs! no longer prepends the previous struct's fields")
+    inv = re.search(r"^multi_structs! \{(.*?)^\}", code, flags=re.S | re.M)
+    if not inv:
+        die("multi_structs! invocation not found")
+    body = re.sub(r"/\*.*?\*/", "", inv.group(1), flags=re.S)
+    decls = re.findall(r"pub struct (\w+)\s*\{([^}]*)\}", body)
+    if [n for (n, _) in decls] != MISC_STRUCTS:
+        die(f"multi_structs! declares {[n for (n, _) in decls]}, expected {MISC_STRUCTS}")
+    leftover = re.sub(r"pub struct (\w+)\s*\{([^}]*)\}", "", body).strip()
+    if leftover:
+        die(f"multi_structs! invocation: unrecognised text {leftover[:80]!r}")
+    nested = {n: parse_layout(gen, n) for n in ("TIME_ZONE_INFORMATION", "XSTATE_CONFIG_FEATURE_MSC_INFO")}
+
+    def expand(fname, ty):
+        if ty in layouts.SCALARS:
+            return [(fname, layouts.SCALARS[ty])]
+        am = re.fullmatch(r"\[\s*(\w+)\s*;\s*(\d+)\s*\]", ty)
+        if am:
+            res = []
+            for i in range(int(am.group(2))):
+                res += expand(f"{fname}[{i}]", am.group(1))
+            return res
+        if ty in nested:
+            return [(f"{fname}.{n}", w) for (n, w) in nested[ty]]
+        die(f"multi_structs!: field {fname} has unsupported type {ty!r}")
+
+    out, acc = [], []
+    for name, fields in decls:
+        own = []
+        for raw in fields.split(","):
+            f = raw.strip()
+            if not f:
+                continue
+            fm = re.fullmatch(r"pub\s+(\w+)\s*:\s*(.+)", f, flags=re.S)
+            if not fm:
+                die(f"struct {name}: unrecognised field declaration {f!r}")
+            own += expand(fm.group(1), fm.group(2).strip())
+        if not own:
+            die(f"struct {name} adds no fields")
+        acc = acc + own
+        out.append((name, list(acc)))
+    return out
+
+
 def main():
     # 1. the struct layouts, through layouts.py's parser (into a scratch file)
     with tempfile.TemporaryDirectory() as tmp:
@@ -57,7 +136,7 @@ def main():
         layouts.main()
         gen = open(scratch, encoding="utf-8").read()
     defs = []
-    for name in STRUCTS:
+    for name in STRUCTS[:2] + STRUCTS[-1:]:
         m = re.search(rf"^(/-- wire size \d+ -/\ndef {name} : Layout := \[.*\])$", gen, flags=re.M)
         if not m:
             die(f"layouts.py did not emit {name}")
@@ -93,6 +172,52 @@ def main():
     ]
     for d in defs:
         lines += [d, ""]
+    misc = misc_layouts(code, gen)
+    for name, fs in misc:
+        items = ", ".join(f'("{n}", {w})' for (n, w) in fs)
+        lines += [f"/-- wire size {sum(w for _, w in fs)} -/", f"def {name} : Layout := [{items}]", ""]
+    fl = re.search(r"pub struct MiscInfoFlags: u32\s*\{([^}]*)\}", code, flags=re.S)
+    if not fl:
+        die("bitflags MiscInfoFlags not found")
+    flags = dict((k, int(v.replace("_", ""), 0))
+                 for (k, v) in re.findall(r"const (\w+)\s*=\s*(0x[0-9a-fA-F_]+|\d+);", fl.group(1)))
+    for k in MISC_FLAGS:
+        if k not in flags:
+            die(f"MiscInfoFlags::{k} missing")
+    if sorted(flags) != sorted(MISC_FLAGS):
+        die(f"MiscInfoFlags has unexpected members: {sorted(set(flags) - set(MISC_FLAGS))}")
+    lines.append("/-- `MiscInfoFlags` bits -/")
+    for k in MISC_FLAGS:
+        lines.append(f"def {k} : Nat := {flags[k]}")
+    lines.append("")
+    # the accessor table of RawMiscInfo (minidump.rs)
+    rd = re.sub(r"//[^\n]*", "", open(os.path.join(layouts.REPO, "minidump", "src", "minidump.rs"), encoding="utf-8").read())
+    am = re.search(r"impl RawMiscInfo \{\s*misc_accessors!\((.*?)\);\s*\}", rd, flags=re.S)
+    if not am:
+        die("impl RawMiscInfo { misc_accessors!(..) } not found in minidump.rs")
+    # the macro itself: `@def` tests the flag with from_bits_truncate(raw.flags1).contains(FLAG); version n covers MiscInfo n..5
+    mm = re.search(r"macro_rules! misc_accessors \{(.*?)\n\}\n", rd, flags=re.S)
+    if not mm or "from_bits_truncate(raw.flags1).contains(md::MiscInfoFlags::$flag)" not in mm.group(1):
+        die("misc_accessors!: the flag test is no longer from_bits_truncate(raw.flags1).contains(FLAG)")
+    for v, variants in [(1, "MiscInfo MiscInfo2 MiscInfo3 MiscInfo4 MiscInfo5"), (2, "MiscInfo2 MiscInfo3 MiscInfo4 MiscInfo5"),
+                        (3, "MiscInfo3 MiscInfo4 MiscInfo5"), (4, "MiscInfo4 MiscInfo5"), (5, "MiscInfo5")]:
+        if mm.group(1).count(f"[{variants}]") != 2:
+            die(f"misc_accessors!: version {v} no longer covers exactly [{variants}]")
+    acc = []
+    for raw in am.group(1).split(","):
+        a = " ".join(raw.split())
+        if not a:
+            continue
+        x = re.fullmatch(r"(\d): (\w+)(?: if (\w+))? -> (.+)", a)
+        if not x:
+            die(f"misc_accessors!: unrecognised entry {a!r}")
+        if x.group(3) and x.group(3) not in flags:
+            die(f"misc_accessors!: unknown flag {x.group(3)}")
+        acc.append((x.group(2), int(x.group(1)), x.group(3)))
+    lines.append("/-- `RawMiscInfo`'s accessors: (field, first MISC_INFO version that has it, guarding flag) -/")
+    lines.append("def MISC_ACCESSORS : List (String × Nat × Option Nat) := [" +
+                 ", ".join(f'("{n}", {v}, {"none" if f is None else "some " + f})' for (n, v, f) in acc) + "]")
+    lines.append("")
     lines.append(f"def VS_FFI_SIGNATURE : Nat := {const('VS_FFI_SIGNATURE')}")
     lines.append(f"def VS_FFI_STRUCVERSION : Nat := {const('VS_FFI_STRUCVERSION')}")
     lines.append("")
